@@ -82,6 +82,13 @@ def on_diagonal(d: R):
     return anf.subst(d, mapping) if mapping else d
 
 
+def _on_diagonal_is_zero(d):
+    try:
+        return on_diagonal(d).is_zero()
+    except Unsupported:
+        return False          # singular where the two points coincide
+
+
 def run(prog, tier):
     anf.reset()
     obs, info = [], []
@@ -131,7 +138,7 @@ def run(prog, tier):
         d = got - want
         ok = d.is_zero()
         why = ""
-        if not ok and is_declared_diagonal(d) and on_diagonal(d).is_zero():
+        if not ok and is_declared_diagonal(d) and _on_diagonal_is_zero(d):
             # differs only by (identity) x (a quantity that vanishes on the diagonal): jitter x squared distance
             ok = True
         if not ok:
